@@ -2,6 +2,8 @@
 package rules
 
 import (
+	"golang.org/x/tools/go/ssa"
+
 	"sort"
 
 	"verif/internal/core"
@@ -31,6 +33,8 @@ type Ctx struct {
 	Tier string
 	// Depth is the interprocedural search depth (quick 3 / thorough 6).
 	Depth int
+
+	taken map[*ssa.Function]bool // functions used as values (lazily computed by addressTaken)
 }
 
 var registry = map[string]*RuleSet{}
